@@ -418,7 +418,7 @@ pub fn run(ctx: &Ctx) {
         crate::engine::Tier::Quick => ctx.run_table(&Units, "all-unit-pairs", pair_table(&[1.0, 2.5], &[0]), true),
         crate::engine::Tier::Thorough => ctx.run_table(&Units, "all-unit-pairs", pair_table(&[1.0, 2.5, 0.001, 1234.5678, 1e6, -3.0, 0.0, 7.0, 1e-6, 99999.5], &[0, 1, 2, 3]), true),
     }
-    ctx.run_generated(&Units, ctx.tier.pick(5_000, 200_000), case_strategy);
+    ctx.run_generated(&Units, ctx.tier.pick(40_000, 400_000), case_strategy);
 }
 
 pub fn replay(w: &mut Worker, sub: &str, case: &serde_json::Value) -> Option<Verdict> {
